@@ -102,6 +102,9 @@ func runPlanRules(c *Ctx, validity, timeRules bool) {
 		return
 	}
 	anyFile := func(v ssa.Value) bool { return isFileInfoPtr(v.Type()) }
+	if validity {
+		c08Comparator(c)
+	}
 
 	// R1: snapshot choice.  The chosen snapshot is a phi over FileInfo values
 	// fed from Item() of the level-9 listing.
@@ -450,4 +453,90 @@ func appendedElems(call ssa.CallInstruction) []ssa.Value {
 		}
 	}
 	return out
+}
+
+// c08Comparator: restoreCandidateBetter is a lexicographic comparison of (curr, next): every
+// ordering test compares the *same* field of the two candidates, and the first key is
+// "reaches further" (next.MaxTXID > curr.MaxTXID).  A test that mixes fields degenerates to
+// "last seen wins" within a level and loses the file that reaches the target.
+func c08Comparator(c *Ctx) {
+	const rule = "R8-candidate-order"
+	fn := c.fn(rule, "ls.restoreCandidateBetter")
+	if fn == nil || len(fn.Params) != 2 {
+		return
+	}
+	fieldOf := func(v ssa.Value) (string, *ssa.Parameter) {
+		for _, o := range origins(v) {
+			u, ok := o.(*ssa.UnOp)
+			if !ok || u.Op != token.MUL {
+				continue
+			}
+			fa, ok := u.X.(*ssa.FieldAddr)
+			if !ok {
+				continue
+			}
+			for _, b := range origins(fa.X) {
+				if p, ok := b.(*ssa.Parameter); ok && p.Parent() == fn {
+					return fieldAddrName(fa), p
+				}
+			}
+		}
+		return "", nil
+	}
+	n := 0
+	first := ""
+	for _, b := range fn.Blocks {
+		for _, in := range b.Instrs {
+			var x, y ssa.Value
+			var pos string
+			what := ""
+			switch k := in.(type) {
+			case *ssa.BinOp:
+				switch k.Op {
+				case token.LSS, token.GTR, token.LEQ, token.GEQ, token.NEQ, token.EQL:
+					x, y, pos, what = k.X, k.Y, c.pos(k), k.Op.String()
+				}
+			case *ssa.Call:
+				nm := calleeName(k)
+				if nm == "(time.Time).Before" || nm == "(time.Time).After" || nm == "(time.Time).Equal" {
+					x, y, pos, what = k.Call.Args[0], k.Call.Args[1], c.pos(k), nm
+				}
+			}
+			if x == nil {
+				continue
+			}
+			fx, px := fieldOf(x)
+			fy, py := fieldOf(y)
+			if px == nil || py == nil {
+				continue
+			}
+			n++
+			c.check(fx == fy && px != py, rule, fmt.Sprintf("%s: comparison %s relates the same field of the two candidates", fnName(fn), what), pos,
+				fx+" of both", fmt.Sprintf("the comparator relates %s of one candidate to %s of the other: the order is no longer a consistent preference", fx, fy))
+			if first == "" {
+				first = fx
+			}
+		}
+	}
+	c.floor(rule, n, 4, "field comparisons in restoreCandidateBetter")
+	c.check(first == "FileInfo.MaxTXID", rule, fnName(fn)+": the first key is how far the candidate reaches (MaxTXID)", c.P.Pos(fn.Pos()), "MaxTXID first", "first key is "+first)
+	// the reach key prefers the larger MaxTXID of `next`
+	okDir := false
+	for _, r := range returns(fn) {
+		for _, o := range origins(retOperand(r, 0)) {
+			if k, ok := o.(*ssa.BinOp); ok {
+				fx, px := fieldOf(k.X)
+				fy, py := fieldOf(k.Y)
+				if fx == "FileInfo.MaxTXID" && fy == "FileInfo.MaxTXID" && px != nil && py != nil {
+					nextP := fn.Params[1]
+					if (k.Op == token.GTR && px == nextP) || (k.Op == token.LSS && py == nextP) {
+						okDir = true
+					} else {
+						okDir = false
+					}
+				}
+			}
+		}
+	}
+	c.check(okDir, rule, fnName(fn)+": better means next.MaxTXID > curr.MaxTXID", c.P.Pos(fn.Pos()), "direction matches", "the reach comparison is inverted or missing")
 }
